@@ -324,22 +324,33 @@ fn group_commit(seed: u64) -> Vec<Fail> {
     let nf = rng.range(2, 6) as usize;
     let mut followers = vec![];
     let mut total_ops = 1u64;
+    // value sizes around the group-commit caps (a small first write lets the group grow by 128 KiB,
+    // a large one up to 1 MiB in total), and synchronous writers that a non-synchronous leader
+    // must not absorb
+    let big_mode = rng.chance(2, 3);
+    const SIZES: [usize; 7] = [3, 3, 40_000, 70_000, 135_000, 300_000, 1_100_000];
+    let mut expect: BTreeMap<Vec<u8>, (usize, u8)> = BTreeMap::new();
     for i in 0..nf {
         let d = db.clone();
         let nops = rng.range(1, 4);
         total_ops += nops;
+        let sizes: Vec<usize> = (0..nops).map(|_| if big_mode { SIZES[rng.below(SIZES.len() as u64) as usize] } else { 3 + rng.below(6) as usize }).collect();
+        let sync = rng.chance(1, 4);
+        for (j, sz) in sizes.iter().enumerate() {
+            expect.insert(format!("g-f{i}-{j}").into_bytes(), (*sz, b'a' + (i as u8) * 4 + j as u8));
+        }
         followers.push(std::thread::spawn(move || {
             let mut b = Batch::new();
-            for j in 0..nops {
-                b.add_put(format!("g-f{i}-{j}").into_bytes(), format!("v{i}-{j}").into_bytes());
+            for (j, sz) in sizes.iter().enumerate() {
+                b.add_put(format!("g-f{i}-{j}").into_bytes(), vec![b'a' + (i as u8) * 4 + j as u8; *sz]);
             }
-            d.apply(WriteOptions::default(), b)
+            d.apply(WriteOptions { synchronous: sync }, b)
         }));
-    }
-    // give the followers time to enqueue behind the parked leader
-    let t0 = std::time::Instant::now();
-    while db.verif_state().writer_queue_len < nf + 1 && t0.elapsed() < Duration::from_secs(5) {
-        std::thread::sleep(Duration::from_millis(1));
+        // writers enqueue in the order they were started (so the grouping is a function of the seed)
+        let t0 = std::time::Instant::now();
+        while db.verif_state().writer_queue_len < i + 2 && t0.elapsed() < Duration::from_secs(5) {
+            std::thread::sleep(Duration::from_millis(1));
+        }
     }
     let queued = db.verif_state().writer_queue_len;
     gate.release();
@@ -366,7 +377,15 @@ fn group_commit(seed: u64) -> Vec<Fail> {
         Ok(got) => {
             let n = got.iter().filter(|(k, _)| k.starts_with(b"g-")).count() as u64;
             if n != total_ops {
-                fails.push(("c05:acknowledged-write-missing-or-duplicated".into(), format!("{total_ops} distinct keys were acknowledged, the database shows {n}")));
+                fails.push(("c05:acknowledged-write-missing-or-duplicated".into(), format!("{total_ops} distinct keys were acknowledged ({queued} writers queued behind a parked leader, value sizes {:?}), the database shows {n}", expect.values().map(|v| v.0).collect::<Vec<_>>())));
+            }
+            for (k, v) in got.iter() {
+                if let Some((sz, byte)) = expect.get(k) {
+                    if v.len() != *sz || v.iter().any(|b| b != byte) {
+                        fails.push(("c05:acknowledged-write-has-wrong-value".into(), format!("key {} reads back {} bytes, {} were written", hex(k), v.len(), sz)));
+                        break;
+                    }
+                }
             }
         }
         Err(e) => fails.push(("c05:read-error".into(), e)),
